@@ -180,6 +180,11 @@ class Interp:
 
     # ------------------------------------------------------------------ expressions
     def ev(self, node, st):
+        if self.contract is not None and self.contract.abstractions and self.mode == "code" and isinstance(node, (ast.Call, ast.ListComp, ast.GeneratorExp)):
+            txt = ast.unparse(node)
+            if txt in self.contract.abstractions:
+                self.assumed_used.add(f"expression abstraction in {self.qualname}: `{txt}` read as `{self.contract.abstractions[txt]}`")
+                return self.ev_contract_expr(self.contract.abstractions[txt], st)
         m = getattr(self, "ev_" + type(node).__name__, None)
         if m is None:
             raise Unsupported(f"expression {type(node).__name__} at line {getattr(node, 'lineno', '?')}")
@@ -560,6 +565,8 @@ class Interp:
         # symbolic: define Comp_site(j) by recursion on the prefix length
         self.comp_no += 1
         ordinal = self.comp_ord.get(id(n), -1)
+        if isinstance(it, SetIter):
+            st.env[f"ORDER{ordinal}"] = it.order  # the (arbitrary) iteration order, so that contracts can talk about it
         saved_ctx = self._comp_ctx
         self._comp_ctx = ordinal
         try:
@@ -1134,6 +1141,12 @@ class Interp:
             return abs(v)
         if name in ("min", "max") and not any(isinstance(a, SV) for a in args):
             return getattr(builtins, name)(*args)
+        if name in ("min", "max") and len(args) >= 2:
+            acc = V._same(args[0], args[1])[0] if not isinstance(args[0], SV) else args[0]
+            for a in args[1:]:
+                x, y = V._same(acc, a)
+                acc = SV(x.ty, z3.If((x.t >= y.t) if name == "max" else (x.t <= y.t), x.t, y.t))
+            return acc
         if name == "map":
             f, xs = args[0], to_iter(args[1])
             if isinstance(xs, list):
